@@ -64,6 +64,13 @@ impl Factors {
     /// * `dest` - match this energy destination (use)
     /// * `step` - match this calculation step
     pub fn find(&self, cr: Carrier, source: Source, dest: Dest, step: Step) -> Result<RenNrenCo2> {
+        #[cfg(feature = "verif_hooks")]
+        crate::verif::emit(|| {
+            let hit = self.wdata.iter().any(|fp| {
+                fp.carrier == cr && fp.source == source && fp.dest == dest && fp.step == step
+            });
+            serde_json::json!({"ev": "Find", "cr": cr, "src": source, "dest": dest, "step": step, "hit": hit})
+        });
         self.wdata
             .iter()
             .find(|fp| {
